@@ -149,6 +149,9 @@ func (p *Prog) verifyFunc(fn *ssa.Function, ct *Contract) (fx *Fx, err error) {
 		return fx, nil
 	}
 	vars := map[string]Val{}
+	for k, v := range fx.frameVarsAt(fin, nil) {
+		vars[k] = v // named local values as of function exit (for proof steps)
+	}
 	for k, v := range fx.entryVarsM {
 		vars[k] = v
 	}
@@ -177,7 +180,7 @@ func (p *Prog) verifyFunc(fn *ssa.Function, ct *Contract) (fx *Fx, err error) {
 			}
 			if t.S.K == SArr && t.S.Idx == IntS {
 				o := Sym("fr!go!"+g, IntS)
-				fx.oblige(fin, "frame", "ghost:"+g, Implies(Not(UF("fresh!", BoolS, o)), Eq(Select(t, o), Select(fx.Entry.Ghost[g], o))), fn.Pos())
+				fx.oblige(fin, "frame", "ghost:"+g, Implies(Not(IntOp(">", o, Sym("W!0", IntS))), Eq(Select(t, o), Select(fx.Entry.Ghost[g], o))), fn.Pos())
 			} else {
 				fx.oblige(fin, "frame", "ghost:"+g, Eq(t, fx.Entry.Ghost[g]), fn.Pos())
 			}
@@ -186,9 +189,38 @@ func (p *Prog) verifyFunc(fn *ssa.Function, ct *Contract) (fx *Fx, err error) {
 	for _, u := range ct.Unfolds {
 		fx.assume(fin, p.unfoldInstance(fx, u, post))
 	}
-	for _, e := range ct.Ensures {
-		fx.oblige(fin, "post", e.Label, p.elab(fx, e.X, post).Scalar(), fn.Pos())
+	for _, a := range ct.ExitApply {
+		fx.assume(fin, p.elab(fx, a, post).Scalar())
 	}
+	// frame first: it never needs the proof steps, and the steps' facts would only burden the solver
+	if !ct.NoFrame && !ct.Sweep {
+		fx.frameObligations(fin, ct, &Env{fx: fx, st: fx.Entry, old: fx.Entry, vars: fx.entryVarsM})
+	}
+	// postconditions, proof steps and lemma instances in the order the contract lists them
+	for _, sp := range ct.Steps {
+		if sp.Label == "" {
+			// lemma instance (justified by the lemma's own proof obligations): assumed from here on
+			n0 := len(fx.Assume)
+			fx.assume(fin, p.elab(fx, sp.X, post).Scalar())
+			if len(fx.Assume) > n0 {
+				fx.KeyFacts[fx.Assume[len(fx.Assume)-1]] = true
+			}
+			continue
+		}
+		g := p.elab(fx, sp.X, post).Scalar()
+		fx.stepsActive = len(fx.KeyFacts) > 0
+		if strings.HasPrefix(sp.Label, "ensures:") {
+			fx.oblige(fin, "post", strings.TrimPrefix(sp.Label, "ensures:"), g, fn.Pos())
+			continue
+		}
+		fx.oblige(fin, "post", "step:"+sp.Label, g, fn.Pos())
+		n0 := len(fx.Assume)
+		fx.assume(fin, g)
+		if len(fx.Assume) > n0 {
+			fx.KeyFacts[fx.Assume[len(fx.Assume)-1]] = true
+		}
+	}
+	fx.stepsActive = false
 	for i, rd := range ct.Returns {
 		a := p.elabT(fx, rd[0], post)
 		b := coerceTo(p.elabT(fx, rd[1], post), a.S)
@@ -202,9 +234,6 @@ func (p *Prog) verifyFunc(fn *ssa.Function, ct *Contract) (fx *Fx, err error) {
 		v := p.elab(fx, &SExp{IsL: true, List: []*SExp{{Atom: "field"}, ff.List[1], ff.List[2]}}, post)
 		pv := p.elab(fx, ff.List[1], post)
 		fx.oblige(fin, "post", fmt.Sprintf("freshfield%d:%s", i+1, ff.List[2].Atom), Or(Eq(pv.L[0], IntConst(0)), p.isFresh(fx, v.L[0])), fn.Pos())
-	}
-	if !ct.NoFrame && !ct.Sweep {
-		fx.frameObligations(fin, ct, env)
 	}
 	if len(ct.Ensures) > 0 {
 		fx.oblige(fin, "canary", "exit", False(), fn.Pos())
@@ -264,7 +293,7 @@ func (fx *Fx) frameObligations(fin *State, ct *Contract, entryEnv *Env) {
 			continue
 		}
 		o := Sym("fr!o!"+k.String(), IntS)
-		goal := Implies(And(Not(inModOf(o, i)), Not(UF("fresh!", BoolS, o))),
+		goal := Implies(And(Not(inModOf(o, i)), Not(IntOp(">", o, Sym("W!0", IntS)))),
 			Eq(Select(Select(fin.H[k], o), i), Select(Select(fx.Entry.H[k], o), i)))
 		fx.oblige(fin, "frame", k.String(), goal, fx.Fn.Pos())
 	}
@@ -353,7 +382,17 @@ func abstractStoredValues(t *Term, memo map[*Term]*Term) *Term {
 	case t.Op == "store" && t.S.Elem.K == SArr:
 		r = Store(abstractStoredValues(t.Args[0], memo), t.Args[1], abstractStoredValues(t.Args[2], memo))
 	case t.Op == "store":
-		r = Store(abstractStoredValues(t.Args[0], memo), t.Args[1], Sym(freshName("frv"), t.S.Elem))
+		base := abstractStoredValues(t.Args[0], memo)
+		v := t.Args[2]
+		oldv := Select(t.Args[0], t.Args[1])
+		if v.Op == "ite" && v.Args[2] == oldv {
+			// guarded write: keep the guard, abstract only the written value
+			r = Store(base, t.Args[1], Ite(v.Args[0], Sym(freshName("frv"), t.S.Elem), Select(base, t.Args[1])))
+		} else if v.Op == "ite" && v.Args[1] == oldv {
+			r = Store(base, t.Args[1], Ite(v.Args[0], Select(base, t.Args[1]), Sym(freshName("frv"), t.S.Elem)))
+		} else {
+			r = Store(base, t.Args[1], Sym(freshName("frv"), t.S.Elem))
+		}
 	case t.Op == "select" && t.S.K == SArr:
 		r = Select(abstractStoredValues(t.Args[0], memo), t.Args[1])
 	case t.Op == "ite" && t.S.K == SArr:
